@@ -48,7 +48,8 @@ impl<W> BufWriter<W> {
     pub fn with_capacity(cap: usize, writer: W) -> Self {
         Self {
             writer,
-            buf: Buffer::with_capacity(cap),
+            // (At least one byte: an empty buffer could never accept anything.)
+            buf: Buffer::with_capacity(cap.max(1)),
         }
     }
 }
